@@ -234,6 +234,8 @@ def run_cfg(ctx, p, cfg):
     if "size_trigger" in feats or "time_trigger" in feats:
         from rules import c20
         c20.rule_integer_forms(ctx, p, cfg, "K2b")   # the same document in YAML/JSON (u64) and TOML (i64) gives the same limit
+        c20.rule_size_table(ctx, p, cfg, "K2c")       # a degenerate size (unit scaling past u64) is rejected, not wrapped: unit table and checked multiplication (C20.L1/L2 re-evaluated)
+        c20.rule_size_overflow(ctx, p, cfg, "K2d")
     with ctx.rule("K3", "registry", cfg) as r:
         d = p.fn("<config::raw::Deserializers as core::default::Default>::default")
         ins = d.calls("config::raw::Deserializers::insert")
